@@ -92,7 +92,7 @@ status = {
  "C01": "holds; spring model instead of projector", "C02": "holds", "C03": "holds", "C04": "F9 found, fixed; holds",
  "C05": "holds to R=3/4; symbolic lattice not built", "C06": "holds", "C07": "F2 found, fixed; holds", "C08": "holds; fully symbolic slice inconclusive (thorough)",
  "C09": "F10, F11 found, fixed; holds", "C10": "F5 + ZPE cutoff found, fixed; holds", "C11": "holds; 3 NRA queries inconclusive",
- "C12": "Hermitisation defect found, fixed; holds; Grüneisen not built", "C13": "holds (19 kernels, 11 OpenMP bodies)", "C14": "F1 found, fixed; holds",
+ "C12": "Hermitisation defect found, fixed; holds (gv and Grüneisen units added)", "C13": "holds (19 kernels, 11 OpenMP bodies)", "C14": "F1 found, fixed; holds",
  "C15": "holds", "C16": "partial claim; holds", "C17": "F6 found, fixed; holds", "C18": "not applicable", "C19": "claimed (larger than planned); holds", "C20": "partial claim; holds"}
 lines = body.split("\n")
 for k, l in enumerate(lines):
